@@ -565,6 +565,7 @@ _INS = "nessai/samplers/importancesampler.py"
 _FPF = "nessai/proposal/flowproposal.py"
 _PB = "nessai/proposal/base.py"
 MUTANTS = [
+    {"id": "reverify-on-resume", "file": "nessai/proposal/flowproposal.py", "old": "            self.configure_constant_volume()\n        self.update_flow_config()", "new": "            self.configure_constant_volume()\n        else:\n            self.verify_rescaling()\n        self.update_flow_config()", "expect": "change the state of the reparameterisations"},
     {"id": "resume-table-from-other-store", "file": _INS, "old": "            ) = obj.proposal.compute_meta_proposal_samples(\n                obj.training_samples.samples\n            )", "new": "            ) = obj.proposal.compute_meta_proposal_samples(obj.samples_unit)", "expect": "recomputed at the samples of that same store"},
     {"id": "weights-file-key-not-pickled", "file": _FPF, "old": '        state["weights_file"] = getattr(\n            state.get("flow"), "weights_file", None\n        )\n', "new": "", "expect": "weights_file"},
     {"id": "proposal-not-reattached", "file": _NS, "old": "        else:\n            self.proposal = self._flow_proposal\n\n        if live_points and", "new": "        else:\n            pass\n\n        if live_points and", "expect": "dropped `proposal`"},
